@@ -3,7 +3,7 @@ import ast
 import struct
 
 from .. import bits as B_
-from ..astutil import dotted, effective, method_call
+from ..astutil import norm_nc, dotted, effective, method_call
 from ..cfg import canon_test, cfg_of, fact_key, norm, walk_own
 from ..consteval import Scope, class_const, fold_in
 from ..mutate import B, M
@@ -375,7 +375,11 @@ def check(ctx):
         K = m.cls(path, cname)
         dd = [s for s in walk_own(sf.node) if isinstance(s, ast.Assign) and uu and s.value is uu[0]]
         got = [norm(e) for e in dd[0].targets[0].elts] if dd else []
-        ok = len(uu) == 1 and fold_in(sf, uu[0].args[0]) == '<fff?' and class_const(K, plen) == struct.calcsize('<fff?') and got == ['x', 'y', 'z', 'self.is_valid']
+        # the four fields may be stored directly or through locals (and a conversion to the type the format already gives them)
+        stq = {norm(s_.targets[0]): norm_nc(s_.value) for s_ in walk_own(sf.node) if isinstance(s_, ast.Assign) and not (dd and s_ is dd[0])}
+        direct = got == ['x', 'y', 'z', 'self.is_valid']
+        via = len(got) == 4 and stq.get('self.is_valid') == got[3] and stq.get('self.position') == '(%s, %s, %s)' % tuple(got[:3])
+        ok = len(uu) == 1 and fold_in(sf, uu[0].args[0]) == '<fff?' and class_const(K, plen) == struct.calcsize('<fff?') and (direct or via)
         ctx.inst('R7', sf, 'anchor-page:' + cname, ok, 'anchor page = <fff? (x, y, z, valid), page length constant = 13')
         rp = K.method('_request_page')
         rc = [c for c in walk_own(rp.node) if method_call(c, 'read')]
@@ -385,8 +389,8 @@ def check(ctx):
     for fn, lst in (('_handle_id_list_data', 'self.anchor_ids'), ('_handle_active_id_list_data', 'self.active_anchor_ids')):
         f = L2.method(fn)
         lp = [l for l in walk_own(f.node) if isinstance(l, ast.For)]
-        cnt = [s for s in walk_own(f.node) if isinstance(s, ast.Assign) and norm(s.value) == '%s[0]' % f.params[1]]
-        ok = len(lp) == 1 and len(cnt) == 1 and norm(lp[0].iter) == 'range(%s)' % norm(cnt[0].targets[0]) and [norm(s) for s in lp[0].body] == ['%s.append(%s[1 + %s])' % (lst, f.params[1], norm(lp[0].target))]
+        cnt = [s for s in walk_own(f.node) if isinstance(s, ast.Assign) and norm_nc(s.value) == '%s[0]' % f.params[1]]
+        ok = len(lp) == 1 and len(cnt) == 1 and norm(lp[0].iter) == 'range(%s)' % norm(cnt[0].targets[0]) and [norm_nc(s) for s in lp[0].body] == ['%s.append(%s[1 + %s])' % (lst, f.params[1], norm(lp[0].target))]
         ctx.inst('R7', f, 'id-list-parse', ok, 'ids = data[1 .. count] with count = data[0]')
 
 
